@@ -295,6 +295,11 @@ func c20Returns(drv *core.Driver, body []jr.Dir, cfg c20Cfg) (string, string, *c
 		return "C20:returns-missing-period", fmt.Sprintf("%d lines for %d periods (period ends %v)", len(lines), len(periods), want) + ctx(), out
 	}
 	prevEnd := w.Start.AddDate(0, 0, -1)
+	if len(periods) > 0 {
+		// with --last the first shown period starts later than the window: its return is
+		// measured from the day before ITS start, not from the start of the window
+		prevEnd = periods[0].S.AddDate(0, 0, -1)
+	}
 	for i, p := range periods {
 		m := reReturn.FindStringSubmatch(lines[i])
 		if m == nil {
@@ -317,7 +322,7 @@ func c20Returns(drv *core.Driver, body []jr.Dir, cfg c20Cfg) (string, string, *c
 			for _, b := range d.Books {
 				if isPortfolio(b.Credit, cfg) != isPortfolio(b.Debit, cfg) {
 					if cfg.ComRx != "" && !regexp.MustCompile(cfg.ComRx).MatchString(b.Com) {
-						perfTrx = true // filtered commodity: value not tracked but flow counted; do not classify
+						continue // a commodity outside the filter is not part of the portfolio: neither value nor flow
 					}
 					if d.HasPerf {
 						perfTrx = true
@@ -415,7 +420,11 @@ func c20Cfgs(full bool) []c20Cfg {
 			cs = append(cs, c20Cfg{V: v, Interval: iv, Universe: true})
 			cs = append(cs, c20Cfg{V: v, Interval: iv, Universe: true, Map: "1,."})
 			cs = append(cs, c20Cfg{V: v, Interval: iv, Universe: true, Map: "1:2,Equity"})
+			if !full && iv == ref.Monthly {
+				cs = append(cs, c20Cfg{V: v, Interval: iv, Last: 1}, c20Cfg{V: v, Interval: iv, ComRx: "AAPL|USD"})
+			}
 			if full {
+				cs = append(cs, c20Cfg{V: v, Interval: iv, Last: 1})
 				cs = append(cs, c20Cfg{V: v, Interval: iv, To: "2020-03-02"})
 				cs = append(cs, c20Cfg{V: v, Interval: iv, From: "2020-02-01", Last: 2})
 				cs = append(cs, c20Cfg{V: v, Interval: iv, ComRx: "AAPL|USD"})
